@@ -88,6 +88,25 @@ CLAIMED = {
         design_ref="DESIGN.md section 6 C08",
         note=_SYNC_NOTE + " Data-race freedom is judged by the Go race detector, not by TLA+ (DESIGN.md section 7).",
         technique="TLA+ trace monitor (SyncTrace outcome + Overlap/Race events) over seeded schedule exploration of real Send/Receive, plus Go race detector"),
+    "C09": dict(
+        text="Every tree of a bounded universe, name sets with bytes on both sides of '/', and seeded random trees (all entry types, hard-link "
+             "groups across directories, xattrs, 255-byte names) are materialised and walked with Walk, WalkDir, FS.Walk (root and sub-target) "
+             "and SubDirFS; TLC checks the recorded callback sequence against spec/WalkRef.tla evaluated on an independent snapshot: every entry "
+             "once, never the root, strictly ascending component-wise, each stat equal to lstat/readlink/listxattr, first member of an inode "
+             "group as file and later ones as links naming it, sub-roots prefixed (link names and absolute symlink targets included). OrderMC "
+             "proves on the bounded path universe that the separator-lowest order is the component-wise order and keeps directory contents contiguous.",
+        design_ref="DESIGN.md section 6 C09",
+        note="Trusted: TLC, the harness snapshotter, ext4 as root, bounded universes and seeded random trees.",
+        technique="TLA+ property layer (WalkRef, Paths/OrderMC) model-checked with TLC + TLC trace validation of real walks"),
+    "C10": dict(
+        text="Filtered walks of materialised trees (systematic single patterns and [X, !Y] pairs of the sub-language on a fixed tree, plus seeded "
+             "random include/exclude lists with literals, *, ?, **, classes, trailing /* /** /*/**, negations, and map functions that rewrite, "
+             "exclude or skip) are recorded and compared by TLC with the naive unpruned reference of spec/FilterRef.tla built from single-pattern "
+             "hit matrices of moby/patternmatcher; a second reference built from the library's incremental matcher is the explanation test "
+             "that separates the known finding (incremental matcher != naive verdict) from any other divergence.",
+        design_ref="DESIGN.md section 6 C10",
+        note="Trusted: TLC; moby/patternmatcher for single-pattern glob semantics; bounded pattern sub-language and seeded random cases.",
+        technique="TLA+ reference filter (FilterRef) + TLC trace validation of real filtered walks with a library-derived hit matrix"),
     "C12": dict(
         text="TLC proves, for every change sequence up to the bound over a hostile path alphabet, that the transcribed Validator "
              "(alg) accepts exactly what the property-layer ValidStream accepts and rejects at the same index, and that the "
